@@ -262,7 +262,7 @@ func withHints(assump []*Term, goal *Term) ([]*Term, *Term) {
 			b := qi.q.Bound[0]
 			for _, p := range qi.pats {
 				for _, g := range work {
-					if !arraysMatch(p.arr, g.arr) {
+					if p.ite != g.ite || !arraysMatch(p.arr, g.arr) {
 						continue
 					}
 					v := Sub(g.idx, p.rest)
@@ -286,6 +286,7 @@ func withHints(assump []*Term, goal *Term) ([]*Term, *Term) {
 }
 
 type selPat struct {
+	ite  bool // the index is (ite c (v + rest) e): matched against the then-branch of ground ite indices (ring positions)
 	arr  *Term
 	rest *Term
 }
@@ -295,10 +296,16 @@ func selectPatterns(body, v *Term) []selPat {
 	var res []selPat
 	seen := map[*Term]bool{}
 	has := func(t *Term) bool { return t.hasBound && mentionsBound(t, v) }
+	sawIte := false
 	var lin func(t *Term) (*Term, bool)
 	lin = func(t *Term) (*Term, bool) {
 		if t == v {
 			return IntLit(0), true
+		}
+		if t.Op == "ite" && has(t.Args[1]) {
+			// ring positions: (ite (< x size) x (- x size)); match on the then-branch
+			sawIte = true
+			return lin(t.Args[1])
 		}
 		if len(t.Args) == 2 && (t.Op == "+" || t.Op == "-") {
 			a, b := t.Args[0], t.Args[1]
@@ -329,8 +336,9 @@ func selectPatterns(body, v *Term) []selPat {
 		}
 		seen[t] = true
 		if t.Op == "select" && t.Args[1].Sort == IntSort && has(t.Args[1]) {
+			sawIte = false
 			if r, ok := lin(t.Args[1]); ok && !r.hasBound {
-				res = append(res, selPat{t.Args[0], r})
+				res = append(res, selPat{sawIte, t.Args[0], r})
 			}
 		}
 		for _, a := range t.Args {
@@ -339,6 +347,25 @@ func selectPatterns(body, v *Term) []selPat {
 	}
 	walk(body)
 	return res
+}
+
+// stripIte replaces (ite c a b) by a under + and - (the form ite-patterns are matched against).
+func stripIte(t *Term) *Term {
+	switch {
+	case t.Op == "ite" && t.Sort == IntSort:
+		return stripIte(t.Args[1])
+	case len(t.Args) == 2 && t.Op == "+":
+		a, b := stripIte(t.Args[0]), stripIte(t.Args[1])
+		if a != t.Args[0] || b != t.Args[1] {
+			return Add(a, b)
+		}
+	case len(t.Args) == 2 && t.Op == "-":
+		a, b := stripIte(t.Args[0]), stripIte(t.Args[1])
+		if a != t.Args[0] || b != t.Args[1] {
+			return Sub(a, b)
+		}
+	}
+	return t
 }
 
 func arraysMatch(parr, garr *Term) bool {
@@ -352,7 +379,10 @@ func arraysMatch(parr, garr *Term) bool {
 	return false
 }
 
-type groundSel struct{ arr, idx *Term }
+type groundSel struct {
+	arr, idx *Term
+	ite      bool
+}
 
 func collectSelects(ts []*Term, seen map[[2]int]bool, limit int) []groundSel {
 	var out []groundSel
@@ -367,7 +397,10 @@ func collectSelects(ts []*Term, seen map[[2]int]bool, limit int) []groundSel {
 			k := [2]int{t.Args[0].id, t.Args[1].id}
 			if !seen[k] && len(out) < limit {
 				seen[k] = true
-				out = append(out, groundSel{t.Args[0], t.Args[1]})
+				out = append(out, groundSel{t.Args[0], t.Args[1], false})
+				if ix := stripIte(t.Args[1]); ix != t.Args[1] {
+					out = append(out, groundSel{t.Args[0], ix, true})
+				}
 			}
 		}
 		for _, a := range t.Args {
